@@ -233,6 +233,18 @@ theorem importQuals_same {q q' : RawQuals} (h : SameRawQuals q q') :
   simp only [importQuals]
   exact (hp.map _).map _
 
+theorem memberTokens_importQuals_same {q q' : RawQuals} (h : SameRawQuals q q') (hk : (q.map (·.1)).Nodup) :
+    memberTokens (qualsVal (importQuals (some q))) = memberTokens (qualsVal (importQuals (some q'))) := by
+  apply (memberTokens_sameContent (importQuals_same h) ?_).1
+  rw [qualsVal, wfDict_iff]
+  constructor
+  · simpa [importQuals, List.map_map, Function.comp_def] using hk
+  · intro e he
+    simp only [List.mem_map] at he
+    rcases he with ⟨x, _, rfl⟩
+    simp only [wfVal, wfList_iff, List.mem_map]
+    rintro v ⟨s, _, rfl⟩; rfl
+
 /-! ### the mirror agrees with the reference stream -/
 
 theorem insertStr_perm (x : Str) : ∀ (l : List Str), (insertStr x l).Perm (x :: l)
